@@ -57,6 +57,7 @@ import CtyModel.Lemmas.d05With
 import CtyModel.Lemmas.d05bBridge
 import CtyModel.Lemmas.d05bLen
 import CtyModel.Lemmas.d05bInf
+import CtyModel.Lemmas.d05bKnownChain
 namespace CtyModel
 namespace C05
 open Refine
@@ -989,6 +990,21 @@ example : (@refine textOracle sampleSet [.lenLower 3]).isPanic = true ∧
 example : ∀ l : Nat, 1 ≤ l → l ≤ 2 → den (.lenLower 3) (.coll l) = false := by
   intro l _ h2; simp only [den, decide_eq_false_iff_not]; omega
 
+/-- `KnownIsAssertion` FOR A RECEIVER THAT STANDS FOR SEVERAL VALUES, whole chains, every oracle: if a chain on a
+known list, map or set is accepted, SOME concrete value the receiver stands for (`γV v x`: a collection of one of its
+possible lengths) satisfies EVERY call of the chain — jointly, not only call by call.  (For an exact-length receiver
+this is `known_is_assertion` restricted to collections, but without any oracle hypothesis.) -/
+theorem known_collection_is_assertion [EqOracle] (v w : Value) (cs : List RefineCall) (least most : Nat)
+    (hl : knownLength v.unmark = .ok (least, most)) (hfit : (most : Int) ≤ maxInt) (h : refine v cs = .ok w) :
+    ∃ l : Nat, least ≤ l ∧ l ≤ most ∧ γV v (.coll l) = true ∧ cs.all (fun c => den c (.coll l)) = true := by
+  obtain ⟨l, h1, h2, h3⟩ := refine_known_collection hl hfit h
+  exact ⟨l, h1, h2, by rw [← γV_unmark]; exact γV_of_knownLength hl l h1 h2, h3⟩
+
+-- jointly, not call by call: on {unknown, "a"} "length ≥ 2" and "length ≤ 1" are each accepted, together they panic
+example : (@refine textOracle sampleSet [.lenLower 2]).isOk = true ∧ (@refine textOracle sampleSet [.lenUpper 1]).isOk = true ∧
+    (@refine textOracle sampleSet [.lenLower 2, .lenUpper 1]).isPanic = true ∧
+    (@refine textOracle sampleSet [.lenUpper 1, .notNull, .collectionLength 2]).isPanic = true := ⟨rfl, rfl, rfl, rfl⟩
+
 end KnownLength
 
 /-! ## slice d05b — infinite bounds: only the NEAR-side singleton is "no bound"
@@ -1306,6 +1322,13 @@ theorem known_length_admitted_accepted_generated [EqOracle] (b : Builder) (c : R
   have h := step_eq b c
   rw [ext_of_lenCall c hc, hb', er_ok] at h
   rw [er_eq_ok.mp h]; rfl
+
+/-- an accepted chain of the translated source on a known collection holds jointly of some possible length -/
+theorem known_collection_is_assertion_generated [EqOracle] (v w : Value) (cs : List RefineCall) (least most : Nat)
+    (hm : Modelled v) (hl : knownLength v.unmark = .ok (least, most)) (hfit : (most : Int) ≤ maxInt)
+    (h : Generated.RefineFns.refine v cs = .ok w) :
+    ∃ l : Nat, least ≤ l ∧ l ≤ most ∧ γV v (.coll l) = true ∧ (cs.map ext).all (fun c => den c (.coll l)) = true :=
+  known_collection_is_assertion v w (cs.map ext) least most hl hfit (ok_of_generated (refine_eq v cs hm) h)
 
 /-- a lower bound of +∞ is recorded by the translated `NumberRangeLowerBound` and excludes every finite number -/
 theorem far_lower_infinity_recorded_generated [EqOracle] (b b' : Builder) (a : NumArg) (incl : Bool)
